@@ -24,6 +24,10 @@ TLA_CP = "/opt/veriftools/tla/tla2tools.jar:/opt/veriftools/tla/CommunityModules
 NCPU = os.cpu_count() or 4
 
 
+import threading
+_BUILD_LOCK = threading.Lock()
+
+
 class Infra(Exception):
     """Infrastructure failure: exit 2, never a violation."""
 
@@ -182,6 +186,10 @@ class Ctx:
 
     # ------------------------------------------------------------------ Go drivers
     def build_driver(self, race=False, tags="verif"):
+        with _BUILD_LOCK:
+            return self._build_driver(race, tags)
+
+    def _build_driver(self, race=False, tags="verif"):
         name = "drv-race" if race else "drv"
         out = os.path.join(self.scratch, name)
         if os.path.exists(out):
